@@ -153,6 +153,13 @@ def _run_own(chk, S: Session):
         gt = [g for g in it.cur_guards if g["exc"] == "TypeError"]
         gv = [g for g in it.cur_guards if g["exc"] == "ValueError" and "std" in T.atoms_of(g["cond"])]
         r3.require(len(gv) >= 2, "loss_lml_timeseries std checks", "std checks passed on every path", f"{len(gv)}", EST, {"average_pdfs": average})
+        # the shape the std container is compared with is one std per time point of the sequence that is evaluated -- the stripped one: a sequence that still
+        # carries its filtering marginals has a *batched* marginal, and a template built from it demands a shape no valid std has
+        refs = [t for g in gv for t in T.subterms(g["cond"]) if t.op == "getitem" and t.args[1] == idx and isinstance(t.args[0], T.Term) and t.args[0].op == "attr" and t.args[0].args[1] == "std"]
+        oks = bool(refs) and all(r_.args[0].args[0] is slf.fields["marginal"] for r_ in refs)
+        r3.require(oks, "loss_lml_timeseries std template", "N copies of the std of the stripped sequence's (single) marginal",
+                   f"the std container is compared with {[T.show(r_.args[0].args[0], 3) for r_ in refs[:1]]}.std[tcoeff_index] stacked N times; the sequence in this scenario still carries its filtering "
+                   "marginals (a documented input), so that template has an extra time axis and every valid std is rejected", EST, {"average_pdfs": average})
     S.absorb(it)
 
 
